@@ -74,6 +74,8 @@ class Trans:
             return out
         if self.kind == "cons":          # inequality violation: amount by which the last latent value exceeds a threshold
             return numpy.array([max(0.0, float(latent[-1]) - self.thr)])
+        if self.kind == "cons-signed":   # g(x) <= 0 convention: negative slack when satisfied, different for every decision
+            return numpy.array([float(latent[-1]) - self.thr])
         if self.kind == "groups":        # several constraint components: members allowed per group (often jointly infeasible)
             c = self.contrib(x)
             return numpy.maximum(self.K @ c - self.thr, 0.0)
@@ -87,7 +89,7 @@ class Trans:
         raise KeyError(self.kind)
 
 
-def make_problem(g, enc, nobj, n, k):
+def make_problem(g, enc, nobj, n, k, allow_signed=False):
     P = importlib.import_module("pybrops.breed.prot.sel.prob.EstimatedBreedingValueSelectionProblem")
     cls = getattr(P, "EstimatedBreedingValue%sSelectionProblem" % enc)
     ntrait = max(nobj, int(g.integers(1, 4)))
@@ -117,6 +119,9 @@ def make_problem(g, enc, nobj, n, k):
     if dcls == "constrained":
         thr = float(numpy.quantile(-ebv[:, -1], 0.5)) * (1.0 if enc == "Subset" else 0.3)
         kw = dict(nineqcv=1, ineqcv_wt=numpy.array([1.0]), ineqcv_trans=Trans("cons", 1, thr=thr))
+        if allow_signed and not huge and g.random() < 0.4:
+            kw = dict(nineqcv=1, ineqcv_wt=numpy.array([1.0]), ineqcv_trans=Trans("cons-signed", 1, thr=thr))
+            dcls += "/signed constraint values (g <= 0 convention)"
         if huge:     # a budget nobody can meet: every decision violates by about 1e6, neighbouring decisions differ by units
             kw = dict(nineqcv=1, ineqcv_wt=numpy.array([1.0]), ineqcv_trans=Trans("cons", 1, thr=thr - 1e6))
             dcls += "/unattainable threshold (violations ~1e6)"
@@ -170,7 +175,7 @@ def prob_digest(prob):
 
 
 def totcv(g_, h_):
-    return float(numpy.sum(g_)) + float(numpy.sum(h_))
+    return float(numpy.sum(numpy.maximum(g_, 0.0))) + float(numpy.sum(h_))     # g <= 0 counts as satisfied
 
 
 def dominated_member(F, CV):
@@ -212,7 +217,9 @@ def one_run(ctx, c, family="opt"):
         n, k = LIVE[name][2]           # same dimensions as the previous problem of this live optimiser, other candidates/data
     elif enc == "Subset" and g.random() < 0.3:
         k = n if g.random() < 0.5 else max(1, n - 1)      # candidate-set size == / just above subset size
-    prob, dcls, ebv = make_problem(g, enc, nobj, n, k)
+    # signed constraint values only for the pymoo-based optimisers (they clip at zero themselves); the deterministic climbers
+    # are judged with the library's own total-violation order, which is defined for non-negative violations
+    prob, dcls, ebv = make_problem(g, enc, nobj, n, k, allow_signed=name not in [short(a_) for a_ in SUBSET_ALGOS[:3]])
     sig = inspect.signature(cls.__init__).parameters
     kw = {}
     if "ngen" in sig:
